@@ -81,6 +81,7 @@ type codeCfg struct {
 	// `f value args… : value'`
 	libOut   map[string]string // library / interface methods that store into a MAP argument: the Lean function returns (results…, map)
 	ownArgs  string            // section variables of the prelude (`variable (E : …)`) that a call of one of the receiver's own methods has to pass on
+	loopFuel map[string]string // method → the Lean expression bounding the iterations of its `for cond { … }` loop (GoSem.whileFuel)
 	assertId bool              // `x.(*T)` on a value whose Lean type is a library type is the value itself (the dynamic type is a fact of the model value)
 	libMut   map[string]string
 }
@@ -273,6 +274,7 @@ type mctx struct {
 	resTypes  []string        // Lean types of the results, one by one
 	outParams []string        // map parameters the body stores into: Go mutates the caller\'s map, here the new map is an extra result
 	panics    bool            // the body contains `panic(…)`: results are `Option …`, `none` = it panicked
+	name      string          // the method being translated
 }
 
 func (m *mctx) fresh() string { m.tmp++; return fmt.Sprintf("t%d", m.tmp) }
@@ -1679,6 +1681,10 @@ func (m *mctx) stmts(list []ast.Stmt, tail func() string, ind string) string {
 				b.WriteString(m.forRev(x, ind))
 				continue
 			}
+			if x.Init == nil && x.Post == nil && x.Cond != nil {
+				b.WriteString(m.forCond(x, rest, tail, ind))
+				return b.String()
+			}
 			b.WriteString(m.forStep(x, rest, tail, ind))
 			return b.String()
 		case *ast.RangeStmt:
@@ -1776,6 +1782,13 @@ func (m *mctx) assignOp(lhs ast.Expr, tok token.Token, rhs string, ind string) s
 	op := map[token.Token]string{token.ADD_ASSIGN: "+", token.SUB_ASSIGN: "-", token.MUL_ASSIGN: "*"}[tok]
 	if op == "" {
 		bad("assignment operator %s", tok)
+	}
+	if tok == token.ADD_ASSIGN && m.g.cfg.stringBytes {
+		if tv, ok := m.g.info.Types[lhs]; ok {
+			if bt, isB := tv.Type.Underlying().(*types.Basic); isB && bt.Info()&types.IsString != 0 {
+				op = "++" // string concatenation
+			}
+		}
 	}
 	val := "(" + cur + " " + op + " " + rhs + ")"
 	b.WriteString(m.store(lhs, val, ind))
@@ -2100,6 +2113,51 @@ func (m *mctx) loopGeneral(src, kname, vname string, bodyStmt *ast.BlockStmt, va
 	return b.String()
 }
 
+// forCond: `for cond { body }` — a left-to-right iteration of the body on the variables it assigns while cond holds, on
+// fuel (cfg.loopFuel names the bound; GoSem.whileFuel answers `none` when it does not suffice, and so does the method: the
+// refinement theorem of the method shows that it does)
+func (m *mctx) forCond(x *ast.ForStmt, rest []ast.Stmt, tail func() string, ind string) string {
+	fuel, ok := m.g.cfg.loopFuel[m.name]
+	if !ok {
+		bad("a `for cond` loop without a configured bound")
+	}
+	if !m.panics || m.retOpt || m.loopState != nil {
+		bad("a `for cond` loop in a context the translation does not cover")
+	}
+	vars, recv := m.assigned(x.Body.List)
+	state := append([]string{}, vars...)
+	if recv {
+		state = append([]string{leanIdent(m.recv)}, state...)
+	}
+	st := tuple(state)
+	if len(state) == 0 {
+		st = "()"
+	}
+	cond := m.expr(x.Cond)
+	if len(m.pre) > 0 {
+		bad("a loop condition with effects")
+	}
+	saved := m.loopState
+	m.loopState = state
+	if len(state) == 0 {
+		m.loopState = []string{}
+	}
+	body := m.stmts(x.Body.List, func() string { return "(GoSem.Ctl.next, " + st + ")" }, ind+"    ")
+	m.loopState = saved
+	var b strings.Builder
+	b.WriteString(fmt.Sprintf("%smatch GoSem.whileFuel (ρ := %s) %s (fun %s => %s) (fun %s =>\n%s%s  ) %s with\n", ind, m.retType, fuel, st, cond, st, body, ind, st))
+	b.WriteString(fmt.Sprintf("%s| none => (none, %s)\n", ind, leanIdent(m.recv)))
+	b.WriteString(fmt.Sprintf("%s| some (ctl_, %s) =>\n", ind, st))
+	if hasReturn(x.Body) {
+		b.WriteString(fmt.Sprintf("%s  match ctl_ with\n%s  | GoSem.Ctl.ret r_ => (r_, %s)\n%s  | _ => (\n", ind, ind, leanIdent(m.recv), ind))
+		b.WriteString(m.stmts(rest, tail, ind+"    "))
+		b.WriteString(ind + "  )\n")
+	} else {
+		b.WriteString(m.stmts(rest, tail, ind+"  "))
+	}
+	return b.String()
+}
+
 // rangeAssignBreak recognises the search idiom
 //
 //	for k, v := range E { if COND { x = EXPR; break } }
@@ -2303,6 +2361,10 @@ func translateType(repo string, cfg codeCfg) (string, error) {
 								return false
 							}
 							if es, ok := n.(*ast.ExprStmt); ok && isPanicCall(es.X) {
+								g.panicky[fd.Name.Name] = true
+							}
+							if fs, ok := n.(*ast.ForStmt); ok && fs.Init == nil && fs.Post == nil && fs.Cond != nil {
+								// a `for cond { … }` loop runs on fuel: running out of it is the result `none`, as a panic is
 								g.panicky[fd.Name.Name] = true
 							}
 							return true
@@ -2539,7 +2601,7 @@ func (g *goTranslator) method(fd *ast.FuncDecl) (mo *methodOut, err error) {
 	if len(recvNames) != 1 {
 		bad("anonymous receiver")
 	}
-	m := &mctx{g: g, recv: recvNames[0].Name, aliases: map[string]string{}, aliasPre: map[string]string{}, calls: map[string]bool{}}
+	m := &mctx{g: g, recv: recvNames[0].Name, name: fd.Name.Name, aliases: map[string]string{}, aliasPre: map[string]string{}, calls: map[string]bool{}}
 	w := leanIdent(m.recv)
 	var params []string
 	for _, f := range fd.Type.Params.List {
